@@ -381,6 +381,8 @@ fn wrath_two_connections(report: &Report, tier: Tier, seed: u64) {
     enum A {
         Start(usize, bool),
         Complete(usize, bool),
+        /// continue on clones of the connection's objects, drop the originals
+        CloneConn(usize),
     }
     let k1 = refmodel::ctr_array::<40>(seed, "c12-two-1");
     let k2 = refmodel::ctr_array::<40>(seed, "c12-two-2");
@@ -394,6 +396,7 @@ fn wrath_two_connections(report: &Report, tier: Tier, seed: u64) {
             }
             actions.push(A::Complete(c, false));
             actions.push(A::Complete(c, true));
+            actions.push(A::CloneConn(c));
         }
         let depth = tier.pick(6usize, 8usize);
         let r = bfs(vec![init], &actions, Some(depth), |s, a| {
@@ -421,6 +424,11 @@ fn wrath_two_connections(report: &Report, tier: Tier, seed: u64) {
                             conn.pending = Some((wire[4], size, opcode));
                         }
                     }
+                }
+                A::CloneConn(c) => {
+                    let conn = if c == 0 { &mut st.0 } else { &mut st.1 };
+                    conn.cd = conn.cd.clone();
+                    conn.se = conn.se.clone();
                 }
                 A::Complete(c, other_thread) => {
                     let conn = if c == 0 { &mut st.0 } else { &mut st.1 };
